@@ -380,55 +380,66 @@ def ipOps (I : MOps) : MOps := outerOps I Ip.keysOf (Ip.matchReq I) (Ip.trace I)
 
 /-! ## HostMatcher -/
 
-inductive HKey where
+/-- Keys of the host buckets: a static host, or the key `P` of a marker pattern in the regex tree
+(`P = Pat` for the specification-level tree, `P = List Char` – the regex string – for the real tree
+model). -/
+inductive HKeyG (P : Type) where
   | static (h : String)
-  | dyn (p : Pat)
-deriving DecidableEq, Repr, Inhabited
+  | dyn (p : P)
+deriving DecidableEq, Repr
 
-/-- Bucket selection of `HostMatcher::insert` (`None` and `Static("")` go to `any_host`). -/
-def Host.keysOf (r : Route) : Option (List HKey) :=
-  match r.host with
-  | none => none
-  | some (.static h) => if h = "" then none else some [HKey.static h]
-  | some (.dyn p) => some [HKey.dyn p]
+/-- What `HostMatcher` reads of its environment: the tree key of a pattern (`MarkerString.regex`),
+`always_match_any_host`, and whether the tree's leaf for a key matches a host
+(`UniqueRegexTreeMap::find`, engine + `ignore_host_case`). -/
+structure HostCfg (P : Type) where
+  pk : Pat → P
+  always : Bool
+  find : P → String → Bool
 
 section
-variable (E : Env)
+variable {P : Type} [DecidableEq P] (H : HostCfg P)
 
-def Host.accepts (k : HKey) (q : Req) : Bool :=
+/-- Bucket selection of `HostMatcher::insert` (`None` and `Static("")` go to `any_host`). -/
+def Host.keysOf (r : Route) : Option (List (HKeyG P)) :=
+  match r.host with
+  | none => none
+  | some (.static h) => if h = "" then none else some [HKeyG.static h]
+  | some (.dyn p) => some [HKeyG.dyn (H.pk p)]
+
+def Host.accepts (k : HKeyG P) (q : Req) : Bool :=
   match q.host with
   | none => false
   | some h =>
     match k with
     | .static s => s == h
-    | .dyn p => E.hostFind p h
+    | .dyn p => H.find p h
 
 /-- One step of `for matcher in self.regex_tree_rule.find(host)`, specification level: the bucket of
 a pattern is consulted iff the pattern matches. -/
-def Host.dynPart (I : MOps) (h : String) (q : Req) (e : HKey × I.M) : List Route :=
+def Host.dynPart (I : MOps) (h : String) (q : Req) (e : HKeyG P × I.M) : List Route :=
   match e.1 with
-  | .dyn p => if E.hostFind p h then I.matchReq e.2 q else []
+  | .dyn p => if H.find p h then I.matchReq e.2 q else []
   | .static _ => []
 
 /-- The host-bound part of `HostMatcher::match_request` for `request.host() = Some(h)`
 (regex tree first, then `static_hosts.get(h)`). -/
-def Host.boundFor (I : MOps) (s : LState I HKey) (q : Req) (h : String) : List Route :=
-  s.map.flatMap (Host.dynPart E I h q) ++
-    ((alookup (HKey.static h) s.map).map (fun b => I.matchReq b q)).getD []
+def Host.boundFor (I : MOps) (s : LState I (HKeyG P)) (q : Req) (h : String) : List Route :=
+  s.map.flatMap (Host.dynPart H I h q) ++
+    ((alookup (HKeyG.static h) s.map).map (fun b => I.matchReq b q)).getD []
 
-def Host.matchBound (I : MOps) (s : LState I HKey) (q : Req) : List Route :=
+def Host.matchBound (I : MOps) (s : LState I (HKeyG P)) (q : Req) : List Route :=
   match q.host with
   | none => []
-  | some h => Host.boundFor E I s q h
+  | some h => Host.boundFor H I s q h
 
 /-- `HostMatcher::match_request`: the any-host bucket is consulted iff `always_match_any_host` or
 no host-bound route matched. -/
-def Host.matchReq (I : MOps) (s : LState I HKey) (q : Req) : List Route :=
-  let routes := Host.matchBound E I s q
-  if E.alwaysAnyHost || routes.isEmpty then routes ++ I.matchReq s.any q else routes
+def Host.matchReq (I : MOps) (s : LState I (HKeyG P)) (q : Req) : List Route :=
+  let routes := Host.matchBound H I s q
+  if H.always || routes.isEmpty then routes ++ I.matchReq s.any q else routes
 
 /-- `for (host, matcher) in &self.static_hosts` of `HostMatcher::trace`. -/
-def Host.staticNode (I : MOps) (q : Req) (e : HKey × I.M) : Option Trace :=
+def Host.staticNode (I : MOps) (q : Req) (e : HKeyG P × I.M) : Option Trace :=
   match e.1 with
   | .static h =>
     some (if q.host == some h
@@ -438,35 +449,35 @@ def Host.staticNode (I : MOps) (q : Req) (e : HKey × I.M) : Option Trace :=
 
 /-- `tree_trace_to_trace` at specification level: one `Regex` node per pattern; its children are
 the traces of the bucket iff the pattern matched. -/
-def Host.dynNode (I : MOps) (h : String) (q : Req) (e : HKey × I.M) : Option Trace :=
+def Host.dynNode (I : MOps) (h : String) (q : Req) (e : HKeyG P × I.M) : Option Trace :=
   match e.1 with
   | .dyn p =>
-    some (Trace.mk (E.hostFind p h) true 1 (.other "regex")
-      (if E.hostFind p h then I.trace e.2 q else []))
+    some (Trace.mk (H.find p h) true 1 (.other "regex")
+      (if H.find p h then I.trace e.2 q else []))
   | .static _ => none
 
 /-- The part of `HostMatcher::trace` inside `if let Some(host) = request.host()`. -/
-def Host.traceFor (I : MOps) (s : LState I HKey) (q : Req) (h : String) : List Trace :=
-  let nodes := s.map.filterMap (Host.dynNode E I h q)
+def Host.traceFor (I : MOps) (s : LState I (HKeyG P)) (q : Req) (h : String) : List Trace :=
+  let nodes := s.map.filterMap (Host.dynNode H I h q)
   let root := Trace.mk true true nodes.length (.other "regex") nodes
   [Trace.mk true true nodes.length (.other "host_regex") [root]] ++
-    (if (alookup (HKey.static h) s.map).isNone
+    (if (alookup (HKeyG.static h) s.map).isNone
      then [Trace.mk true false 0 (.other "host_static") []] else [])
 
 /-- The host-bound part of `HostMatcher::trace` (everything before the any-host fallback). -/
-def Host.traceBound (I : MOps) (s : LState I HKey) (q : Req) : List Trace :=
+def Host.traceBound (I : MOps) (s : LState I (HKeyG P)) (q : Req) : List Trace :=
   s.map.filterMap (Host.staticNode I q) ++
     (match q.host with
      | none => []
-     | some h => Host.traceFor E I s q h)
+     | some h => Host.traceFor H I s q h)
 
 /-- `HostMatcher::trace`: the any-host bucket is traced iff `always_match_any_host` or the traces so
 far list no route. -/
-def Host.trace (I : MOps) (s : LState I HKey) (q : Req) : List Trace :=
-  let traces := Host.traceBound E I s q
-  if E.alwaysAnyHost || (routesOfList traces).isEmpty then traces ++ I.trace s.any q else traces
+def Host.trace (I : MOps) (s : LState I (HKeyG P)) (q : Req) : List Trace :=
+  let traces := Host.traceBound H I s q
+  if H.always || (routesOfList traces).isEmpty then traces ++ I.trace s.any q else traces
 
-def hostOps (I : MOps) : MOps := outerOps I Host.keysOf (Host.matchReq E I) (Host.trace E I)
+def hostOps (I : MOps) : MOps := outerOps I (Host.keysOf H) (Host.matchReq H I) (Host.trace H I)
 
 end
 
@@ -569,12 +580,15 @@ def build (R : List Route) : RouterG O := R.foldl (fun S r => insert O r S) (emp
 
 end RouterG
 
+/-- `HostMatcher` over the specification-level tree: keyed by the pattern itself. -/
+def specHost (E : Env) : HostCfg Pat := ⟨id, E.alwaysAnyHost, E.hostFind⟩
+
 section
 variable (E : Env)
 
 /-- The tower `SchemeMatcher<T>` of the code, regex trees at specification level. -/
 def towerOps : MOps :=
-  schemeOps (hostOps E (ipOps (methodOps (headerOps E (dateTimeOps (pathOps E))))))
+  schemeOps (hostOps (specHost E) (ipOps (methodOps (headerOps E (dateTimeOps (pathOps E))))))
 
 /-- The router model over the specification-level tower (`config` is the environment). -/
 abbrev Router := RouterG (towerOps E)
